@@ -22,6 +22,8 @@ Python values: `null`, `true/false`, integers, strings, `{"t":[…]}` tuple, `{"
          "hist":[…oldest first…],"queue":[[cmd,cb]…],"pend":[[key,cmd,cb]…],"counter":n,
          "threads":[[next,phase]…]}
 ```
+{"op":"wake","max":m,"cap":c,"readOnce":b,"steps":[["put",v] | ["notify",k] | ["process",k] | ["poll"] …]}
+     -> {"steps":[{"pipe":n,"qlen":n,"raised":b,"full":b,"sleeps":b} …]}   (PSO.Queue.Wake, the wake-up pipe)
 `resultOf (call ⟨t,k⟩) = 1000*t + k`, `resultOf (foreign k) = 900000 + k`.
 -/
 namespace Driver.Queue
@@ -237,6 +239,33 @@ def handle (j : Json) : Except String Json := do
         ("pend", .arr (s.pend.map fun p => Json.arr #[keyJson p.key, cmdJson p.e.cmd, cbJson p.e.cb]).toArray),
         ("counter", jn s.counter),
         ("threads", .arr threads.toArray)])
+  | "wake" =>
+      let m ← (← j.getObjVal? "max").getNat?
+      let cap ← (← j.getObjVal? "cap").getNat?
+      let ro := match j.getObjVal? "readOnce" with
+        | .ok (.bool b) => b
+        | _ => false
+      let steps ← (← j.getObjVal? "steps").getArr?
+      let mut w := Wake.init m cap ro
+      let mut outs : Array Json := #[]
+      for st in steps do
+        let a ← st.getArr?
+        if a.size = 0 then throw "empty step"
+        let opn ← a[0]!.getStr?
+        let arg : Nat := if a.size > 1 then (a[1]!.getNat?).toOption.getD 0 else 0
+        let ls : List WLabel ← match opn with
+          | "put" => pure [WLabel.put arg]
+          | "notify" => pure (List.replicate (max arg 1) WLabel.notify)
+          | "process" => pure [WLabel.process arg]
+          | "poll" => pure [WLabel.poll]
+          | _ => throw s!"unknown wake step {opn}"
+        let r := w.run ls
+        w := r.1
+        let bad := r.2.any (· == WOut.error)
+        let full := r.2.any (· == WOut.queueFull)
+        outs := outs.push (Json.mkObj [("pipe", jn w.pipe), ("qlen", jn w.queue.items.length),
+          ("raised", .bool bad), ("full", .bool full), ("sleeps", .bool w.sleeps)])
+      pure (Json.mkObj [("steps", .arr outs)])
   | _ => throw s!"unknown op {op}"
 
 partial def loop (stdin stdout : IO.FS.Stream) : IO Unit := do
